@@ -22,14 +22,14 @@ import (
 // upgrade request. All times are virtual milliseconds and multiples of 10, so
 // they never coincide with a context end or a dial timeout (see scenario).
 type peerScript struct {
-	Resp    string `json:"resp"`                        // valid | status400 | badaccept | noupgrade | garbage
-	Cuts    []int  `json:"cuts,omitempty"`              // permille positions at which the response is split into chunks
-	Gaps    []int  `json:"gaps,omitempty"`              // delay before chunk j (relative to the previous delivery / the request); missing = 0
-	Deliver int    `json:"deliver"`                     // number of chunks that are delivered; <0 = all, 0 = silent peer
-	EOF     bool   `json:"eof,omitempty"`               // the peer closes its side after the delivered chunks
-	Tail    int    `json:"tail,omitempty"`              // bytes of frame data following the response in its last chunk
-	Gate    int    `json:"gate,omitempty"`              // the peer starts accepting writes at this time after connect; <0 = never
-	TLS     bool   `json:"tls_peer,omitempty"`      // the client speaks TLS: the peer reacts to the first bytes written (the ClientHello) with Garbage bytes that are no TLS record
+	Resp    string `json:"resp"`               // valid | status400 | badaccept | noupgrade | garbage
+	Cuts    []int  `json:"cuts,omitempty"`     // permille positions at which the response is split into chunks
+	Gaps    []int  `json:"gaps,omitempty"`     // delay before chunk j (relative to the previous delivery / the request); missing = 0
+	Deliver int    `json:"deliver"`            // number of chunks that are delivered; <0 = all, 0 = silent peer
+	EOF     bool   `json:"eof,omitempty"`      // the peer closes its side after the delivered chunks
+	Tail    int    `json:"tail,omitempty"`     // bytes of frame data following the response in its last chunk
+	Gate    int    `json:"gate,omitempty"`     // the peer starts accepting writes at this time after connect; <0 = never
+	TLS     bool   `json:"tls_peer,omitempty"` // the client speaks TLS: the peer reacts to the first bytes written (the ClientHello) with Garbage bytes that are no TLS record
 	Garbage int    `json:"garbage,omitempty"`
 	SlowDL  bool   `json:"slow_set_deadline,omitempty"` // every Set*Deadline call takes slowDL of virtual time before it takes effect
 }
@@ -608,11 +608,11 @@ type connState struct {
 	LayerOpen string // a wrapper layer that has not seen Close
 	LayerShut string // a wrapper layer that has seen Close
 	LayerDL   string // a wrapper layer left with a deadline
-	LogLen  int
-	Closed  bool
-	RD, WD  time.Time
-	IOs     int
-	Runaway int
+	LogLen    int
+	Closed    bool
+	RD, WD    time.Time
+	IOs       int
+	Runaway   int
 }
 
 func (c *fakeConn) state() connState {
